@@ -11,8 +11,8 @@ import (
 
 func init() {
 	register("C16", runC16,
-		"Decides the first clause only — promql/series never reports a selector as missing while an instant query for it returns series: (R1) in SeriesCheck.Check the probe instantSeriesCount(count(<selector of this iteration, unstripped>)) is made in the selector loop and every Problem literal reachable after it within the same iteration is dominated by the `count > 0` false edge and by err == nil; instantSeriesCount sums the sample values of the instant query it was given; (R2) the error discipline of C15-R4 at every Prometheus API call in promql_series.go (an outage is never turned into a finding, a nil result never dereferenced).",
-		"the second clause (Bug when the metric was never present and no rule produces it) depends on range data, gap detection and comment/config exemptions and is not decided.")
+		"Decides the first clause only — promql/series never reports a selector as missing while an instant query for it returns series: (R1) in SeriesCheck.Check the probe instantSeriesCount(count(<selector of this iteration, unstripped>)) is made in the selector loop and every Problem literal reachable after it within the same iteration is dominated by the `count > 0` false edge and by err == nil; instantSeriesCount sums the sample values of the instant query it was given; (R2) the error discipline of C15-R4 at every Prometheus API call in promql_series.go (an outage is never turned into a finding, a nil result never dereferenced); (R3) producer lookups are kind-aware, cached answers expire as stored and every cache clean-up walks every entry; (R4) one structural part of the second clause: config.isEnabled, evaluated on every input shape, switches the check off for a server only when a disable names the check, its String() or name(+tag) for one of that server's tags.",
+		"the rest of the second clause (Bug when the metric was never present and no rule produces it) depends on range data and gap detection and is not decided.")
 }
 
 func runC16(c *Ctx) {
@@ -164,6 +164,9 @@ func runC16(c *Ctx) {
 		c.Check(okQ && okSum, "C16-R1", "instantSeriesCount:sums the samples of an instant query for its argument", isc.Decl.Pos(), "Query(ctx, query); series += value", "instantSeriesCount no longer sums the result of an instant query for the given expression")
 	}
 	// ---- R3: structural clauses of the second half (who counts as a producer; which selectors are probed; cache lifetime) ----
+	c.Rule("C16-R4", "the check is switched off for a server only by a disable that names it (isEnabled evaluated, shared with C08-R6)", 30)
+	defer c08IsEnabledSemanticsR(c, "C16-R4")
+	defer c16EveryCleanUpLooksAtEveryEntry(c, "C16-R3")
 	c.Rule("C16-R3", "producer lookups are kind-aware; per-source fallback exemption; cached answers expire as stored", 5)
 	defer c16SelectorCopy(c)
 	defer c16FallbackScope(c)
@@ -770,4 +773,49 @@ func c16OneCachePerGroup(c *Ctx, R string) {
 		})
 	}
 	c.Check(n >= 1, R, "stores to Prometheus.cache enumerated", token.NoPos, itoa(n), "none found")
+}
+
+// c16EveryCleanUpLooksAtEveryEntry: a cached answer is handed out until the clean-up removes it (get() does
+// not look at the expiry time). Every run of queryCache.gc therefore reaches the walk over the entries: no
+// path from its entry leaves the function without it ("nothing happened since last time, skip" keeps an
+// answer whose lifetime ran out during the idle period, and the next lint run judges series by it).
+func c16EveryCleanUpLooksAtEveryEntry(c *Ctx, R string) {
+	gc := c.MustFunc(R, "internal/promapi.queryCache.gc")
+	if gc == nil {
+		return
+	}
+	info := gc.Pkg.TypesInfo
+	fl := c.P.NewFlow(gc)
+	isWalk := func(n ast.Node) bool {
+		rs, ok := n.(*ast.RangeStmt)
+		return ok && fieldSel(info, rs.X, "internal/promapi.queryCache", "entries")
+	}
+	var walk *ast.RangeStmt
+	ast.Inspect(gc.Decl.Body, func(n ast.Node) bool {
+		if isWalk(n) {
+			walk = n.(*ast.RangeStmt)
+		}
+		return true
+	})
+	if walk == nil {
+		c.Undecided(R, "queryCache.gc:walk over the entries", gc.Decl.Pos(), "no `range c.entries` found")
+		return
+	}
+	// structural form of must-pass: the walk is a statement of the function body itself and no return stands before it
+	top := false
+	for _, st := range gc.Decl.Body.List {
+		if st == ast.Stmt(walk) {
+			top = true
+		}
+	}
+	early := ""
+	inspectNoLit(gc.Decl.Body, func(n ast.Node) bool {
+		if r, ok := n.(*ast.ReturnStmt); ok && r.Pos() < walk.Pos() {
+			early = c.P.Pos(r.Pos())
+		}
+		return true
+	})
+	_ = fl
+	c.Check(top && early == "", R, "queryCache.gc:every clean-up walks every entry", walk.Pos(), "unconditional",
+		"the clean-up can end before it looked at the entries (return at "+early+", or the walk stands under a condition): an answer whose lifetime ran out stays in the cache and is handed out by get(), which does not look at the expiry time")
 }
